@@ -38,6 +38,8 @@ EXPLAINS = {
     "discarded-qualifier": ["const-init", "const-pointer-arg", "const-lvalue"],
     "unsized-array": ["scalar-in-array-memory"],
     "implicit-decl": ["nested-extern"],
+    "decrement-operator": ["double-usub"],
+    "sequence-point": ["double-usub"],
     "incompatible-pointer": ["avx2-window-arg"],
 }
 # model tag -> gcc classes that confirm it
@@ -60,28 +62,54 @@ def source_features(rec) -> list:
     for m in re.finditer(r"\(alloc \d+ \w+ (\d+) 0\)", ex):
         if int(m.group(1)) < len(mems) and mems[int(m.group(1))] in ("DRAM_STACK", "DRAM_STATIC", "C15_STK2"):
             feats.append("scalar-in-array-memory")
-    if re.search(r"\(ext [^()]*(\([^()]*\)[^()]*)*\(ext ", ex) or _nested_ext(ex):
+    if _nested_ext(ex):
         feats.append("nested-extern")
-    if "AVX2" in mems and re.search(r"\((rd|wn) ", ex):
-        feats.append("avx2-window-arg")
+    if "(usub (usub " in ex:
+        feats.append("double-usub")
+    if "AVX2" in mems and ex:
+        # a buffer living in AVX2 (or a window of one) handed to a callee
+        av = str(mems.index("AVX2"))
+        try:
+            tree = common.parse_sexp(ex)
+            for proc in tree[4][1]:
+                inav = set(a[1] for a in proc[1] if a[0] == "num" and a[3] == av)
+
+                def walk(ss):
+                    hit = False
+                    for s in ss:
+                        if s[0] == "alloc" and s[3] == av:
+                            inav.add(s[1])
+                        elif s[0] == "win" and s[2] in inav:
+                            inav.add(s[1])
+                        elif s[0] == "call":
+                            hit |= any(a[0] in ("rd", "wn") and a[1] in inav for a in s[2])
+                        elif s[0] == "if":
+                            hit |= walk(s[1]) | walk(s[2])
+                        elif s[0] == "for":
+                            hit |= walk(s[1])
+                    return hit
+
+                if walk(proc[2]):
+                    feats.append("avx2-window-arg")
+        except Exception:
+            pass
     return sorted(set(feats))
 
 
 def _nested_ext(ex: str) -> bool:
-    depth_stack, i = [], 0
+    """an extern call inside an argument of another extern call"""
     toks = re.findall(r"\(|\)|[^\s()]+", ex)
-    ext_depths = []
-    depth = 0
+    open_ext, depth = [], 0
     for k, t in enumerate(toks):
         if t == "(":
             depth += 1
             if k + 1 < len(toks) and toks[k + 1] == "ext":
-                if ext_depths:
+                if open_ext:
                     return True
-                ext_depths.append(depth)
+                open_ext.append(depth)
         elif t == ")":
-            if ext_depths and ext_depths[-1] == depth:
-                ext_depths.pop()
+            if open_ext and open_ext[-1] == depth:
+                open_ext.pop()
             depth -= 1
     return False
 
@@ -194,8 +222,8 @@ def run(ck: common.Check):
 
     # ------------------------------------------------------------------ 2./3. cases
     wd = common.scratch_dir("c15_%s" % ck.tier)
-    n_annot = ck.n(132, 3000)
-    n_progen = ck.n(36, 720)
+    n_annot = ck.n(132, 9000)
+    n_progen = ck.n(36, 2400)
     import c15_corpus
     ncorp = len(c15_corpus.CASES)
     nw = NPROC - 1
